@@ -602,7 +602,9 @@ Section Cycle.
   Variable mode : mmode.
   Variable X : nat.
 
-  Definition finish_ok (h : heap) : heap := emit_ran mode 4 h X.
+  (* Node.emitting_channels: `failed` (unconnected here) when the failed flag is set -- also after a SUCCESSFUL run
+     that went out past the gate with the flag still set -- else `ran` *)
+  Definition finish_ok (h : heap) : heap := if n_failed (nd h X) then h else emit_ran mode 4 h X.
 
   (* the value a function node's copy computed on the far side *)
   Definition copy_value (h : heap) (c1 : nat) : Z :=
